@@ -157,7 +157,6 @@ func Build(s Spec) []byte {
 	}
 
 	// Top DICT with placeholders
-	type patch struct{ pos int }
 	var top []byte
 	var pCharset, pFDSelect, pCharStrings, pFDArray, pPrivate int = -1, -1, -1, -1, -1
 	if s.CID {
